@@ -10,7 +10,7 @@ import schedupper
 import json, os
 THEOREMS = {"C03.v": json.load(open(os.path.join(os.path.dirname(__file__), "_theorems.json")))["C03"],
             # part U: the whole allocator under every interleaving (machine M2)
-            "Conc.v": ['Conc_upper_safe', 'Conc_upper_safe_with_changes']}
+            "Conc.v": ['Conc_upper_safe', 'Conc_upper_safe_with_changes', 'Conc_from_new']}
 
 
 def jobs(ctx, rel):
